@@ -985,6 +985,11 @@ func (h *headReader) Read(ctx context.Context, out frame.Frame) (n int, err erro
 	if h.n <= 0 {
 		return 0, sliceio.EOF
 	}
+	// Read no more than the remaining number of rows so that rows beyond
+	// those reported are not written into out.
+	if out.Len() > h.n {
+		out = out.Slice(0, h.n)
+	}
 	n, err = h.reader.Read(ctx, out)
 	h.n -= n
 	if h.n < 0 {
